@@ -22,12 +22,12 @@ func init() {
 		Level: "exploration",
 		Rule: "Reference-model monitor on the public API: a sequential inode-identity model (inode -> first cleaned spelling; re-pointed listed path moves; watch ends when the inode is deleted or renamed) is run next to the real Watcher; " +
 			"after EVERY step WatchList (as a multiset) and the result class (nil / ErrNonExistentWatch / some error) are compared, panics are caught, and each sequence ends by probing every listed path (one chmod => exactly one Chmod event under the listed spelling), removing everything listed and requiring zero kernel marks. " +
-			"Quick: ALL sequences of length <=3 over a 24-letter alphabet (11 Adds incl. failing ones, 6 Removes, 7 filesystem steps); thorough adds all sequences of length <=4 over 14 letters and of length <=3 over 45 letters; " +
+			"Quick: ALL sequences of length <=3 over a 24-letter alphabet (11 Adds incl. failing ones, 6 Removes, 7 filesystem steps) and over an 8-letter alphabet of names ending in '...' (missing, a file, a directory; an ordinary name while recursion is off); thorough adds all sequences of length <=4 over 14 letters and of length <=3 over 45 letters; " +
 			"plus the same re-pointing templates with the READER HELD BACK (no barrier between the filesystem step and the re-Add), strace-injected ENOSPC on inotify_add_watch (a failed Add must change nothing), " +
 			"plus PRNG sequences of length <=30 and the re-pointing templates (retarget / replace-by-rename / recreate-while-linked then re-Add). distinct_nontrivial = distinct sequences containing >=1 successful Add and >=2 different op kinds",
 		Assumptions: []string{"stat(2) identifies the file a path names; a watched inode is 'deleted' when its last link goes while no descriptor is open (the driver holds none here)", "every filesystem step is followed by a sentinel barrier (strict schedule)"},
 		Batches:     func(t string) int { return map[string]int{"quick": 16, "thorough": 64}[t] },
-		MustObserve: []string{"sequences", "steps_compared", "probe_events_checked", "repointed_adds"},
+		MustObserve: []string{"sequences", "steps_compared", "probe_events_checked", "repointed_adds", "replace_race_iterations"},
 		Exhaustive:  true,
 		Run:         runC04,
 	})
@@ -116,6 +116,10 @@ func c4alphabet(base string, size int) []c4op {
 		{"rm", "f"}, {"rm", abs("f")}, {"rm", "lf"}, {"rm", "d"}, {"rm", "ld"}, {"rm", "h"},
 		{"fs", "unlink f"}, {"fs", "mv f f2"}, {"fs", "mv g f"}, {"fs", "retarget lf g"}, {"fs", "recreate f"}, {"fs", "rmdir d"}, {"fs", "mv d d2"},
 	}
+	if size == 8 { // names whose last component is "..." (an ordinary name while recursion is off), "..", "."
+		return []c4op{{"add", "d"}, {"add", "d/..."}, {"add", "..."}, {"add", "d3/..."}, {"add", "d/../..."},
+			{"rm", "d/..."}, {"rm", "..."}, {"rm", "d"}}
+	}
 	if size <= 14 {
 		return []c4op{{"add", "f"}, {"add", abs("f")}, {"add", "lf"}, {"add", "h"}, {"add", "g"}, {"add", "d"},
 			{"rm", "f"}, {"rm", "lf"}, {"rm", "g"},
@@ -146,6 +150,8 @@ func c4reset(base string) {
 	os.Symlink("./g", "lr")
 	os.Link("f", "h")
 	os.Symlink("loop", "loop")
+	os.WriteFile("...", nil, 0o644)
+	os.Mkdir("d3/...", 0o755)
 }
 
 // c4fs performs a filesystem step and tells the model which inodes lost their watch.
@@ -359,9 +365,9 @@ func runC04(c *core.Ctx) {
 	r := &c4runner{c: c, dir: c.Tmp}
 	defer r.drop()
 	type enum struct{ size, maxLen int }
-	enums := []enum{{24, 3}}
+	enums := []enum{{24, 3}, {8, 3}}
 	if c.Thorough() {
-		enums = []enum{{24, 3}, {14, 4}, {45, 3}}
+		enums = []enum{{24, 3}, {8, 4}, {14, 4}, {45, 3}}
 	}
 	caseNo := 0
 	for _, en := range enums {
@@ -432,6 +438,8 @@ func runC04(c *core.Ctx) {
 			}
 		}
 	}
+	os.Chdir("/")
+	replaceRace(c, 5000000, "")
 	// random long sequences and re-pointing templates
 	n := c.Pick(60, 600)
 	for i := 0; i < n; i++ {
